@@ -939,6 +939,28 @@ def k_cli(ctx, snap, oracle, stats, samples, nontrivial, violation, thorough):
                 okpool = False
                 violation('the string literal object %s points to holds %r, the literal is %r (%s)' % (name, got, want, t), 'string-pool', t, pool_src.encode(), 'pool')
                 break
+    # a wide literal whose bytes equal an earlier narrow literal's must still be aligned for its element type
+    al_src = ('const char *n1 = "A\\0\\0"; const unsigned short *w1 = u"A"; const char *n2 = "\\0\\0\\0"; const unsigned *w2 = U""; const void *w3 = L"";\n'
+              'const char *n3 = "ab\\0"; const unsigned short *w4 = u"\\x6261";\nconst unsigned short *fw(void) { return u"A"; }\n')
+    for t in TARGETS:
+        rc, out, err = qbe(al_src, t)
+        stats['cli_cases'] = stats.get('cli_cases', 0) + 1
+        if rc != 0:
+            okpool = False
+            violation('pointers to string literals rejected on %s: %s' % (t, err[:160]), 'string-pool', t, al_src.encode(), 'accept')
+            continue
+        aligns = dict((m.group(1), int(m.group(2))) for m in re.finditer(r'^data \$(\.Lstring\.\d+) = align (\d+) \{', out, re.M))
+        ptr = dict(re.findall(r'^(?:export )?data \$(\w+) = align \d+ \{ l \$([\w.]+), \}', out, re.M))
+        fret = re.findall(r'ret \$(\.Lstring\.\d+)', out)
+        for name, need in (('w1', 2), ('w2', 4), ('w3', 4), ('w4', 2)):
+            if aligns.get(ptr.get(name, ''), 0) < need:
+                okpool = False
+                violation('the string literal object %s points to is defined with alignment %s, its element type needs %d (%s)' % (name, aligns.get(ptr.get(name, '')), need, t),
+                          'string-pool-alignment', t, al_src.encode(), 'pool')
+                break
+        if fret and aligns.get(fret[0], 0) < 2:
+            okpool = False
+            violation('the string literal object returned by fw() is defined with alignment %s, its element type needs 2 (%s)' % (aligns.get(fret[0]), t), 'string-pool-alignment', t, al_src.encode(), 'pool')
     ctx.ob('K-CLI:string literal objects of equal length with a common beginning keep their own contents (%d literals x %d targets)' % (len(pool_want), len(TARGETS)), okpool)
 
     # ---------------------------------------------------------------- 5. scanner model vs the real tokeniser (-E token dump)
